@@ -259,6 +259,10 @@ func delegationOK(c *Ctx, cl *ssa.Call, prm *ssa.Parameter, lex map[ssa.Value]bo
 	}
 	for _, g := range cands {
 		if !k1[g] && !isTilingExempt(g) {
+			// an unexported helper that does the reads itself (b, err := copyIPv4(data)): judged by the same rule, quietly
+			if g.Blocks != nil && inModule(g) && !token.IsExported(g.Name()) && g.Parent() == nil && quietTiling(c, g, k1) {
+				continue
+			}
 			return false, ""
 		}
 	}
@@ -621,3 +625,22 @@ func nonDebugRefs(v ssa.Value) []ssa.Instruction {
 }
 
 var _ = types.Typ
+
+// quietTiling: does helper g satisfy the tiling rule on its own input parameter (evaluated on a scratch report)
+var quietTilingDepth int
+
+func quietTiling(c *Ctx, g *ssa.Function, k1 map[*ssa.Function]bool) bool {
+	if quietTilingDepth > 2 || inputParam(g) == nil {
+		return false
+	}
+	quietTilingDepth++
+	defer func() { quietTilingDepth-- }()
+	tmp := &Ctx{P: c.P, R: NewReport("scratch", "quick"), Verif: c.Verif, Tier: c.Tier, sx: c.sx}
+	tilingCheck(tmp, "scratch", g, k1)
+	for _, o := range tmp.R.Obls {
+		if o.Status == StOpen || o.Status == StUndecided {
+			return false
+		}
+	}
+	return len(tmp.R.Obls) > 0
+}
